@@ -692,7 +692,7 @@ def run(ctx):
         raise MachineryError("model self-test: summing a hyper label early must violate NoEarlySum")
     ctx.extra["model_selftest"] = "routes as before the fixes (exponent dropped by contract_tags' early return and by TNLinearOperator) violate RouteExact"
 
-    ncases, nroutes = (160, 10) if quick else (900, 16)
+    ncases, nroutes = (160, 10) if quick else (3600, 16)
     dtypes = ["float64", "complex128", "float32", "complex64"]
     recs = []
     for k in range(ncases):
